@@ -79,6 +79,14 @@ def run(F, R):
     ds = [x for x, r in rendered.items() if r == "success(UpdateDownloadStarted{})"]
     if pi and ds:
         R.check("C10-R1", "download-started-before-install", not (set(pi) & reach(S, [entry], cut_nodes=ds)), "perform_install is dominated by the download-started report", "perform_install can run before the download-started report")
+    # whether some app installed is always decided once the installer has run (an early exit for the failed apps must not
+    # skip the update-complete report of the apps that did install)
+    dec = sorted(set(a for (a, b) in inst_nonempty))
+    if pi and dec:
+        for x in pi:
+            miss = reach_pf(S, S.succ[x], cut_nodes=dec) & rets
+            R.check("C10-R1", "update-complete-decided-after-every-install", not miss, "every path from perform_install to the end of the check tests whether some app installed",
+                    "after perform_install the check can end without deciding on the update-complete report (apps that installed next to a failed one are never reported)", S.nodes[x].loc())
     # apps argument of the final UpdateComplete: exactly the installed list
     for (x, ev_idx) in helper_calls:
         if rendered[x] == "success(UpdateComplete{})":
